@@ -58,7 +58,7 @@ var dbg = os.Getenv("C12_DEBUG")
 const (
 	nodeActor    = gpbft.ActorID(4242)
 	nodeActor2   = gpbft.ActorID(4243) // second local identity of a two-identity stack
-	purgeHorizon = 6 // host.go keeps 5 instances behind the finalized one in the WAL
+	purgeHorizon = 6                   // host.go keeps 5 instances behind the finalized one in the WAL
 )
 
 // ---- wire log -----------------------------------------------------------------
@@ -96,15 +96,15 @@ func msgID(m *gpbft.GMessage) string {
 // ---- requests issued by the harness -----------------------------------------------
 
 type request struct {
-	Kind     string `json:"kind"`
+	Kind     string        `json:"kind"`
 	Sender   gpbft.ActorID `json:"sender"`
-	Inst     uint64 `json:"instance"`
-	Round    uint64 `json:"round"`
-	Phase    string `json:"phase"`
-	Sig      string `json:"sig"`
-	Life     int    `json:"life"`
-	WireLen  int    `json:"wire_len_at_issue"`
-	Conflict bool   `json:"conflicting"`
+	Inst     uint64        `json:"instance"`
+	Round    uint64        `json:"round"`
+	Phase    string        `json:"phase"`
+	Sig      string        `json:"sig"`
+	Life     int           `json:"life"`
+	WireLen  int           `json:"wire_len_at_issue"`
+	Conflict bool          `json:"conflicting"`
 }
 
 type tmpl struct {
@@ -225,17 +225,17 @@ type stack struct {
 	mfst    manifest.Manifest // driver goroutine only: replaced between lifetimes by a tuned variant
 	tune    int               // tuning variant of mfst (0: base)
 	netName gpbft.NetworkName // never changes
-	key    crypto.PrivKey
-	dec    encoding.EncodeDecoder[*gpbft.PartialGMessage]
-	obsWG  sync.WaitGroup
+	key     crypto.PrivKey
+	dec     encoding.EncodeDecoder[*gpbft.PartialGMessage]
+	obsWG   sync.WaitGroup
 
 	// request gate: a Broadcast that may raise the filter's instance is issued
 	// exclusively (see the soundness note at checkOrder).
-	gate sync.RWMutex
-	cur  atomic.Pointer[lifeHandle]
-	life      atomic.Int64
-	withhold  atomic.Bool
-	reqWG     sync.WaitGroup
+	gate     sync.RWMutex
+	cur      atomic.Pointer[lifeHandle]
+	life     atomic.Int64
+	withhold atomic.Bool
+	reqWG    sync.WaitGroup
 
 	mu          sync.Mutex
 	wire        []wireMsg
@@ -1437,6 +1437,7 @@ func (s *stack) tally(agg *sync.Map) {
 		onWire[s.wire[i].Sig] = true
 	}
 	var issued, suppressed, confl, conflSupp, older, olderSupp int64
+	var twoConfl, twoConflSupp [2]int64 // per local identity, two-identity stacks only
 	kinds := map[string]int64{}
 	for _, r := range s.requests {
 		issued++
@@ -1450,6 +1451,16 @@ func (s *stack) tally(agg *sync.Map) {
 			if sup {
 				conflSupp++
 			}
+			if len(s.ids) == 2 {
+				k := 0
+				if r.Sender == s.ids[1] {
+					k = 1
+				}
+				twoConfl[k]++
+				if sup {
+					twoConflSupp[k]++
+				}
+			}
 		}
 		if r.Kind == "conflict-older-instance" || r.Kind == "replay-older-instance" {
 			older++
@@ -1459,6 +1470,17 @@ func (s *stack) tally(agg *sync.Map) {
 		}
 	}
 	ownN := int64(len(s.wire) - s.prefixLen)
+	// slots of this stack's own node per sender (two-identity stacks)
+	var ownBySender [2]int64
+	if len(s.ids) == 2 {
+		for i := s.prefixLen; i < len(s.wire); i++ {
+			if s.wire[i].Sender == s.ids[1] {
+				ownBySender[1]++
+			} else {
+				ownBySender[0]++
+			}
+		}
+	}
 	s.mu.Unlock()
 	add := func(k string, v int64) {
 		if v == 0 {
@@ -1472,6 +1494,15 @@ func (s *stack) tally(agg *sync.Map) {
 	add("requests_nonhonest_not_on_wire", suppressed)
 	add("conflicting_requests_issued", confl)
 	add("conflicting_requests_suppressed", conflSupp)
+	if len(s.ids) == 2 {
+		add("stacks_with_two_identities", 1)
+		add("two_identity_stacks_wire_messages_first_identity", ownBySender[0])
+		add("two_identity_stacks_wire_messages_second_identity", ownBySender[1])
+		add("two_identity_stacks_conflicting_requests_issued_first_identity", twoConfl[0])
+		add("two_identity_stacks_conflicting_requests_issued_second_identity", twoConfl[1])
+		add("two_identity_stacks_conflicting_requests_suppressed_first_identity", twoConflSupp[0])
+		add("two_identity_stacks_conflicting_requests_suppressed_second_identity", twoConflSupp[1])
+	}
 	add("older_instance_requests_issued", older)
 	add("older_instance_requests_suppressed", olderSupp)
 	for k, v := range kinds {
@@ -1511,8 +1542,9 @@ func runNode(t *testing.T, part string, small bool) {
 	if small {
 		cfg = nodeCfg{cases: run.N(1, 12), lifetimes: 2, stepsMin: 10, stepsMax: 20, forksPerRun: 1}
 	}
-	run.SetRule("each case is one node identity: a real f3.F3 (mocknet + gossipsub + FakeEC + mock clock + map datastore + real WAL directory) with the only key of the power table, driven through several lifetimes (Stop / New+Start over the same datastore and WAL, clock and EC head moved while down) by a seeded script of clock advances, signature withholding (rebroadcast storms), bursts of conflicting / duplicate / older-instance requests from several goroutines through F3.Broadcast, a final future-instance request, and crash forks (wire log, datastore and WAL directory copied at an arbitrary instant, tail optionally cut at a random byte no earlier than the last published entry) each run as a new node on the copy and attacked on the slots already used; an observer pubsub peer records the wire; distinct = (case, stack, lifetime) with at least one conflicting request kept off the wire")
-	run.Assume("no storage errors are injected; no other node uses the identity",
+	run.SetRule("each case is one node: a real f3.F3 (mocknet + gossipsub + FakeEC + mock clock + map datastore + real WAL directory) signing for the whole power table - one identity, or (every third case, index%3==0) two local identities of equal power for both of which the harness plays the signing client and the attacker - driven through several lifetimes (Stop / New+Start over the same datastore and disk path, clock and EC head moved while down, 40% of the restarts with a manifest that differs only in tuning parameters: Gpbft.RebroadcastBackoffMax, CertificateExchange.MaximumPollInterval) by a seeded script of clock advances, signature withholding (rebroadcast storms), bursts of conflicting / duplicate / older-instance requests from several goroutines through F3.Broadcast, a final future-instance request, and crash forks (wire log, datastore and WAL directory copied at an arbitrary instant, tail optionally cut at a random byte no earlier than the last published entry) each run as a new node on the copy and attacked on the slots already used; an observer pubsub peer records the wire; distinct = (case, stack, lifetime) with at least one conflicting request kept off the wire")
+	run.Assume("no storage errors are injected; no other node uses the identities",
+		"a manifest that keeps the network name, bootstrap epoch, initial instance and all consensus parameters and changes only RebroadcastBackoffMax / MaximumPollInterval is a restart of the same node on the same network; the WAL of the oracles is everything below <disk path>/wal (no assumption on how the node names the log directory)",
 		"the observer may miss messages (only what it saw is judged); awaiting delivery uses bounded polling whose expiry is counted, never judged",
 		"ordering claims rely on the request gate described at checkWire: a request that may raise the filter's instance is never concurrent with another harness request; one in-flight rebroadcast is tolerated after a harness-made future-instance request",
 		"gossip message ids are (author, seqno) as in the repo's own node tests; WAL entries older than 6 instances behind the newest seen are excused from the WAL-presence check (purge)")
@@ -1583,7 +1615,11 @@ func runNode(t *testing.T, part string, small bool) {
 			return
 		}
 		caseRoot := filepath.Join(root, fmt.Sprintf("case%d", i))
-		s, err := newStack(run, i, fmt.Sprintf("c%d", i), 0, seed, caseRoot, key, seed%2 == 0)
+		nIDs := 1
+		if i%3 == 0 {
+			nIDs = 2
+		}
+		s, err := newStack(run, i, fmt.Sprintf("c%d", i), 0, seed, caseRoot, key, seed%2 == 0, nIDs)
 		if err != nil {
 			run.Count("steps_inconclusive_start_failed", 1)
 			fmt.Printf("note: case %d: stack failed: %v\n", i, err)
@@ -1623,6 +1659,7 @@ func runNode(t *testing.T, part string, small bool) {
 	run.Count("stacks_run", stacks)
 	run.Count("node_lifetimes", st.lifetimes)
 	run.Count("restarts", st.restarts)
+	run.Count("restarts_with_tuned_manifest", st.tunedRestarts)
 	run.Count("crash_forks", st.forks)
 	run.Count("crash_forks_with_requests_in_flight", st.forksInflight)
 	run.Count("crash_forks_with_cut_tail", st.forksCut)
@@ -1640,6 +1677,15 @@ func runNode(t *testing.T, part string, small bool) {
 		if run.Counter("wire_messages_observed") < floor ||
 			run.Counter("conflicting_requests_suppressed") < int64(cfg.cases) ||
 			st.restarts < int64(cfg.cases) || st.forks < 1 {
+			run.Inconclusive("too-few-events")
+		}
+		// the two-identity share (cases 0, 3, 6, ...) and the tuned-manifest restarts
+		if run.Counter("stacks_with_two_identities") < 1 ||
+			run.Counter("two_identity_stacks_wire_messages_first_identity") < floor/6 ||
+			run.Counter("two_identity_stacks_wire_messages_second_identity") < floor/6 ||
+			run.Counter("two_identity_stacks_conflicting_requests_suppressed_first_identity") < 1 ||
+			run.Counter("two_identity_stacks_conflicting_requests_suppressed_second_identity") < 1 ||
+			st.tunedRestarts < 1 || (!small && st.tunedRestarts < int64(cfg.cases)) {
 			run.Inconclusive("too-few-events")
 		}
 	}
